@@ -2,6 +2,7 @@
 import helpers
 import corecheck
 import derivecheck
+import httpcheck
 
 ASSUME_COMMON = [
     "TLC 1.8.0 and the CommunityModules Json/IOUtils overrides are trusted",
@@ -109,6 +110,7 @@ C13 = {
 
 CHECKS = {
     "C16": (derivecheck.run, derivecheck.replay),
+    "C20": (httpcheck.run, httpcheck.replay),
     **{p: (corecheck.run, corecheck.replay) for p in corecheck.CORE_PROPS},
     "C13": (lambda pid, tier: helpers.run(pid, tier, C13), lambda pid, path: helpers.replay(pid, C13, path)),
     "C05": (lambda pid, tier: helpers.run(pid, tier, C05), lambda pid, path: helpers.replay(pid, C05, path)),
